@@ -79,7 +79,9 @@ class _GroupElem(ABC):
             assert (
                 connect.ndim == 2 and connect.shape[1] == nPe
             ), "connect must be a (Ne, nPe) array."
-        self.__connect = connect
+        # node numbers are plain integers whatever the (possibly narrower) integer type they are given
+        # in: the dof numbers computed from them (node * dof_n + d) would wrap around in a small type
+        self.__connect = connect.astype(int, copy=False)
         self.__connect_n_e: sparse.csr_matrix = None
 
         # Ensure coordinates is a (Ncoords, 3) array
